@@ -307,6 +307,8 @@ func runC14(c *eng.Ctx) {
 	// ---- R6 registry inserts
 	r7 := c.Rule("C14.R7", "D:provenance", "(shared with C03.R11) the task that answers an admission request is run with its own context only: it has no queue name, so it is combined with no queued task (group compaction could otherwise drop the Validating context and the answer becomes a 500)", 4)
 	runOutsideQueueTasks(c, r7)
+	r8 := c.Rule("C14.R8", "I:error-flow", "(shared with C12.R4) a hook run that does not end with exit status 0 - also one killed by a signal - or whose output cannot be read is an error of Hook.Run: only then can the handler deny", 6)
+	runHookFailureIsError(c, r8)
 	r6 := c.Rule("C14.R6", "H:insert without presence check", "registries keyed by the webhook id (derived with the non-injective SafeURLString from a binding name that is not unique across hooks) are written only after a presence check", 4)
 	links := p.Field(pkgCtrl, "AdmissionBindingsController", "AdmissionLinks")
 	hooksV := p.Field(pkgAdm, "ValidatingWebhookResource", "hooks")
